@@ -296,13 +296,17 @@ Inductive op :=
 | OLoad (id : N) (drop : path) (add : store) (emitted : list (path * value))
 (* LoadStartupConfig + ApplyLoadedConfig of a start-up configuration [cfg]; [steps] = what
    ProcessSubscriberGroups / ProcessCGNATPools do for it (in-place edits of the object and Sets) *)
-| OBoot (cfg : store) (steps : list bstep) (emitted : list (path * value)) (f : faults).
+| OBoot (cfg : store) (steps : list bstep) (emitted : list (path * value)) (f : faults)
+(* exported methods that are no session operations *)
+| OSaveStartup (fail : bool)          (* SaveStartup(): startup := deepCopy(running); write the startup file *)
+| OReset                              (* ResetForRecovery(): running := empty, sessions and lock dropped (no expiry) *)
+| OReloadFRR (k : nat).               (* ReloadFRR(): reload the daemon with running; k as f_reload *)
 
 Inductive res :=
 | RId (n : N) | ROk | RLocked | RNoSession | RNoHandler | RInvalid | RSetFail | RCycle | RDepMissing
 | RDepErr | RNoChanges | RPrecommit | RApplyFail | RFrrTest | RFrrReload | RStartupSave | RVersionSave
 | RFrrReloadU | RStartupSaveU      (* the same, and the error says that restoring the daemon failed too *)
-| RBadVersion | RBadVerType | RNotImpl | RModelFuel | RInadmissible | RBootErr | RBootVersion.
+| RBadVersion | RBadVerType | RNotImpl | RModelFuel | RInadmissible | RBootErr | RBootVersion | RSaveFail.
 
 (* the recorded call stream: handler Apply / Rollback calls with their outcome, routing-daemon calls *)
 Inductive ev :=
@@ -927,6 +931,25 @@ Definition do_boot (var : variant) (reg : registry) (g : guard) (st0 : state) (c
         next_oid := next_oid st_z; vmem := vmem st_z; vfiles := vfiles st_z |}, r, evs)
   else (st_z, r, evs).
 
+(* ---------- SaveStartup, ResetForRecovery, ReloadFRR (conf.go) ---------- *)
+Definition do_save_startup (g : guard) (st : state) (fail : bool) : state * res :=
+  let o := (next_oid st + 1)%N in
+  ({| running := running st; running_oid := running_oid st; startup := running st; startup_oid := o;
+      sfile := if fail then sfile st else Some (scrub g (running st)); frr := frr st; sessions := sessions st;
+      lock := lock st; next_id := next_id st; next_oid := o; vmem := vmem st; vfiles := vfiles st |},
+   if fail then RSaveFail else ROk).
+Definition do_reset (st : state) : state :=
+  let o := (next_oid st + 1)%N in
+  {| running := empty_store; running_oid := o; startup := startup st; startup_oid := startup_oid st;
+     sfile := sfile st; frr := frr st; sessions := []; lock := None; next_id := next_id st; next_oid := o;
+     vmem := vmem st; vfiles := vfiles st |}.
+Definition do_reload_frr (st : state) (k : nat) : state * res * list ev :=
+  match k with
+  | O => (set_frr st (Some (running st)), ROk, [EFrrReload])
+  | 2%nat => (set_frr st (Some (running st)), RFrrReload, [EFrrReload])     (* taken, then reported as failed *)
+  | _ => (st, RFrrReload, [EFrrReload])
+  end.
+
 Definition step (var : variant) (reg : registry) (g : guard) (st : state) (o : op) : state * res * list ev :=
   match o with
   | OCreate => let '(s, r) := do_create st in (s, r, [])
@@ -938,6 +961,9 @@ Definition step (var : variant) (reg : registry) (g : guard) (st : state) (o : o
   | OCommit id f => do_commit var reg g st id f
   | OLoad id drop add em => let '(s, r) := do_load reg st id drop add em in (s, r, [])
   | OBoot cfg steps em f => do_boot var reg g st cfg steps em f
+  | OSaveStartup fl => let '(s, r) := do_save_startup g st fl in (s, r, [])
+  | OReset => (do_reset st, ROk, [])
+  | OReloadFRR k => do_reload_frr st k
   end.
 
 (* the operations a northbound client performs (no LoadConfig, no start-up).
@@ -945,7 +971,12 @@ Definition step (var : variant) (reg : registry) (g : guard) (st : state) (o : o
    `Config: nil`), so Rollback(toVersion) always ends in "invalid config type".  If versions ever carry
    configurations, Rollback publishes without the lock (createSessionUnlocked ignores lockOwner) and without
    any of the pre-commit validators (conf.go:572), and C13_isolation would no longer hold for it. *)
-Definition plain (o : op) : bool := match o with OLoad _ _ _ _ | OBoot _ _ _ _ => false | _ => true end.
+Definition plain (o : op) : bool :=
+  match o with OLoad _ _ _ _ | OBoot _ _ _ _ | OSaveStartup _ | OReset | OReloadFRR _ => false | _ => true end.
+(* operations under which the reachable-state invariant is preserved: the northbound ones and the three
+   administrative methods *)
+Definition inv_ok (o : op) : bool :=
+  match o with OLoad _ _ _ _ | OBoot _ _ _ _ => false | _ => true end.
 
 Fixpoint run (var : variant) (reg : registry) (g : guard) (st : state) (ops : list op) : state :=
   match ops with
